@@ -723,11 +723,23 @@ def check_dtypes(ctx, subject, tf, xs, rs, xint, rint, documented_int, kind_note
 def check_endpoints(ctx, subject, hookcls, I, tf, ends):
     """transform(reference end point) == required image (array and scalar path)."""
     for x_ref, want, label in ends:
-        for mode in ("array", "scalar"):
+        for mode in ("array", "array-last", "array-middle", "scalar"):
             got = {}
             with ctx.guard("endpoint", subject):
-                v = tf.transform(np.array([x_ref, x_ref]) if mode == "array" else np.float64(x_ref))
-                got["v"] = float(np.asarray(v, dtype=float).reshape(-1)[0])
+                if mode == "scalar":
+                    v = tf.transform(np.float64(x_ref))
+                    got["v"] = float(np.asarray(v, dtype=float).reshape(-1)[0])
+                else:
+                    # the end point at the first, the last or a middle position of an array that also holds interior
+                    # points in no particular order (arrays need not be sorted, the end point may occur anywhere / twice)
+                    xi = np.asarray(I.x, dtype=float)
+                    a_, b_ = float(xi[len(xi) // 3]), float(xi[(2 * len(xi)) // 3])
+                    arr, pos = {"array": ([x_ref, x_ref, b_, a_], 0), "array-last": ([b_, a_, x_ref], 2), "array-middle": ([b_, x_ref, a_, x_ref], 1)}[mode]
+                    v = np.asarray(tf.transform(np.array(arr, dtype=float)), dtype=float).reshape(-1)
+                    got["v"] = float(v[pos])
+                    if mode == "array-middle":  # both occurrences must agree
+                        if not (v[1] == v[3] or (np.isnan(v[1]) and np.isnan(v[3]))):
+                            got["v"] = float(v[3])
             if "v" not in got:
                 continue
             v = got["v"]
